@@ -3,6 +3,7 @@
 package strm
 
 import (
+	"bufio"
 	"bytes"
 	"crypto/cipher"
 	"errors"
@@ -195,6 +196,32 @@ func Drain(r io.Reader, policy string) (res Result) {
 		if err == nil {
 			res.Err = io.EOF
 		}
+	case "readfrom": // bytes.Buffer.ReadFrom: reads into the spare capacity of a growing buffer
+		_, err := out.ReadFrom(r)
+		res.Err = err
+		if err == nil {
+			res.Err = io.EOF
+		}
+	case "bufio1m": // a large buffered reader in front: Read calls with a 1 MiB buffer
+		_, err := io.Copy(struct{ io.Writer }{&out}, bufio.NewReaderSize(r, 1<<20))
+		res.Err = err
+		if err == nil {
+			res.Err = io.EOF
+		}
+	case "sniff512copybuf": // http.DetectContentType style: 512 bytes first, then io.CopyBuffer with a large buffer
+		head := make([]byte, 512)
+		n, err := io.ReadFull(r, head)
+		out.Write(head[:n])
+		if err == io.ErrUnexpectedEOF || err == io.EOF {
+			err = nil
+			_, err = io.CopyBuffer(struct{ io.Writer }{&out}, struct{ io.Reader }{r}, make([]byte, 1<<18))
+		} else if err == nil {
+			_, err = io.CopyBuffer(&out, r, make([]byte, 1<<18))
+		}
+		res.Err = err
+		if err == nil {
+			res.Err = io.EOF
+		}
 	case "copyplain": // io.Copy without WriterTo/ReaderFrom shortcuts on either side
 		_, err := io.Copy(struct{ io.Writer }{&out}, struct{ io.Reader }{r})
 		res.Err = err
@@ -240,7 +267,10 @@ func Drain(r io.Reader, policy string) (res Result) {
 	return
 }
 
-var ReadPolicies = []string{"readall", "copy", "copyplain", "buf1", "buf7", "buf65536", "buf100000", "win1000", "win70000", "sniffcopy"}
+var ReadPolicies = []string{"readall", "copy", "copyplain", "buf1", "buf7", "buf65536", "buf100000", "win1000", "win70000", "sniffcopy", "readfrom", "bufio1m", "buf1048576", "sniff512copybuf"}
+
+// BulkPolicies are the caller styles that hand the reader large buffers or switch between Read and io.Copy.
+var BulkPolicies = []string{"readall", "copy", "sniffcopy", "buf4096", "copyplain", "readfrom", "buf1048576", "buf100000", "bufio1m", "sniff512copybuf", "buf65552", "win70000"}
 
 // ---------------------------------------------------------------- sources and destinations
 
